@@ -26,7 +26,7 @@ COMPONENTS = {"real": ["amaranth.build.res.ResourceManager", "amaranth.build.dsl
                        "amaranth.lib.io.Buffer", "amaranth.back.rtlil"],
               "stub": ["pin-owner model", "constraint-file parsers", "no toolchain is executed (do_build=False)"]}
 EXPECTED_PROBES = ("refuse", "refuse_conflict_late", "refuse_duplicate", "refuse_unknown", "refuse_bad_dir", "refuse_bad_xdr",
-                   "granted", "connector_chain", "diffpairs", "clock_constraints", "built", "legal_after_refusal")
+                   "refuse_bad_xdr_late", "granted", "connector_chain", "diffpairs", "clock_constraints", "built", "legal_after_refusal")
 
 PHYS = ["P%d" % i for i in range(1, 41)]
 
@@ -119,6 +119,10 @@ def gen_case(seed, tier):
                 op["dir"] = fl.choice(["i", "o", "io", "oe", "bogus"])
             elif q < 0.25:
                 op["xdr"] = fl.choice([-1, 0, "x"])
+            elif q < 0.32:
+                # refused late: the data rate is only rejected when the pin buffer is built, after pins were recorded
+                op["dir"] = None
+                op["xdr"] = 3
         elif r < 0.85:
             op = {"op": "request", "name": wl.choice(names + ["nope"]), "number": wl.randint(0, 5), "dir": "-", "xdr": None}
         else:
@@ -262,6 +266,8 @@ def model_request(config, state, op):
             return "refuse", "bad_xdr"
         if not isinstance(op["xdr"], int) or op["xdr"] < 0:
             return "refuse", "bad_xdr"
+        if op["dir"] != "-" and op["xdr"] > 2:
+            return "refuse", "bad_xdr_late"
     new = {}
     for li, (path, node, p, n, hops) in enumerate(lv):
         for k, ph in enumerate(p + (n or [])):
@@ -349,6 +355,7 @@ def run_history(config, ops, use_frac, use_seed, stats=None, record=None):
                 stats["faults"]["refuse"] += 1
                 key = {"conflict_late": "refuse_conflict_late", "conflict": "refuse_conflict", "duplicate": "refuse_duplicate",
                        "unknown": "refuse_unknown", "bad_dir": "refuse_bad_dir", "bad_xdr": "refuse_bad_xdr",
+                       "bad_xdr_late": "refuse_bad_xdr_late",
                        "unresolved": "refuse_unresolved"}[info]
                 stats["probes"][key] = stats["probes"].get(key, 0) + 1
 
